@@ -7,6 +7,27 @@ import numpy as np
 
 KAPPAS = (1.0, 10.0, 1e2, 1e3, 1e4)
 KAPPA_MAX = 1e4
+# hostile value regimes, switched on per check by the worker from the property module's HOSTILE
+# tuple: "scale" = overall scales far from one (a condition number says nothing about absolute
+# scale: absolute jitters and thresholds only show there), "mean" = means 1e4..1e5 standard
+# deviations away from the origin (cancellation in formulas that go through second moments)
+HOSTILE_SCALE = False
+HOSTILE_MEAN = False
+EXTREME_SCALES = (1e-6, 1e-4, 1e4, 1e6)
+
+
+class calm:
+    """context manager: hostile regimes off (for sub-checks whose objects have an intrinsic O(1)
+    length scale - kernels, link functions, quadrature proposals)."""
+
+    def __enter__(self):
+        global HOSTILE_SCALE, HOSTILE_MEAN
+        self.saved = (HOSTILE_SCALE, HOSTILE_MEAN)
+        HOSTILE_SCALE = HOSTILE_MEAN = False
+
+    def __exit__(self, *a):
+        global HOSTILE_SCALE, HOSTILE_MEAN
+        HOSTILE_SCALE, HOSTILE_MEAN = self.saved
 
 
 def J(a):
@@ -40,6 +61,8 @@ def spd(rng, D, kappa=None, scale=None, diag=False):
         kappa = float(rng.choice(KAPPAS[:4]))
     if scale is None:
         scale = 10.0 ** rng.uniform(-1, 1)
+        if HOSTILE_SCALE and rng.random() < 0.2:
+            scale = float(rng.choice(EXTREME_SCALES))
     if D == 1:
         lam = np.array([1.0])
     else:
@@ -70,6 +93,16 @@ def psd_batch(rng, R, D, rank=None):
 
 def vec(rng, *shape, scale=1.0):
     return rng.standard_normal(shape) * scale
+
+
+def mean_vec(rng, R, D, Sigma):
+    """a mean vector: O(sd) normally; in the hostile regime sometimes 1e4..1e5 sd from the origin."""
+    sd = np.sqrt(np.max(np.diagonal(Sigma, axis1=-1, axis2=-2), axis=-1))[:, None]
+    if HOSTILE_MEAN and rng.random() < 0.15:
+        return rng.standard_normal((R, D)) * sd * 10.0 ** rng.uniform(4, 5)
+    if HOSTILE_SCALE:
+        return rng.standard_normal((R, D)) * sd * 2.0
+    return rng.standard_normal((R, D))
 
 
 def lin_map(rng, R, Dy, Dx, smin=0.1, smax=3.0, zero=False):
